@@ -83,6 +83,32 @@ class Flow:
                                     vals_ok, tbl = True, tbl or norm(cond.comparators[0])
                     self.filtered[a.targets[0].id] = (tbl, keys_ok, vals_ok)
 
+        # the same table built by an explicit loop: `for k, v in raw.items(): ... D[k] = [x for x in v if x in table]` under `k in table`
+        for loop in ast.walk(fn):
+            if not (isinstance(loop, ast.For) and self._is_raw_items(loop.iter) and isinstance(loop.target, ast.Tuple) and len(loop.target.elts) == 2):
+                continue
+            k, v = (norm(x) for x in loop.target.elts)
+            for a in ast.walk(loop):
+                if not (isinstance(a, ast.Assign) and len(a.targets) == 1 and isinstance(a.targets[0], ast.Subscript) and isinstance(a.targets[0].value, ast.Name) and norm(a.targets[0].slice) == k):
+                    continue
+                keys_ok = self.guarded(a.targets[0].slice, a, self.tables)
+                val = a.value
+                if isinstance(val, ast.Name):
+                    defs = [d for d in ast.walk(loop) if isinstance(d, ast.Assign) and len(d.targets) == 1 and isinstance(d.targets[0], ast.Name) and d.targets[0].id == val.id] + \
+                           [d for d in ast.walk(loop) if isinstance(d, ast.NamedExpr) and d.target.id == val.id]
+                    val = defs[0].value if len(defs) == 1 else val
+                vals_ok, tbl = False, None
+                if isinstance(val, (ast.ListComp, ast.SetComp, ast.GeneratorExp)) and norm(val.generators[0].iter) == v:
+                    x = norm(val.generators[0].target)
+                    for cond0 in val.generators[0].ifs:
+                        for cond in ast.walk(cond0):
+                            if isinstance(cond, ast.Compare) and len(cond.ops) == 1 and isinstance(cond.ops[0], ast.In) and norm(cond.left) == x and norm(cond.comparators[0]) in self.tables and norm(val.elt) == x and self._conjunct(cond0, cond):
+                                vals_ok, tbl = True, norm(cond.comparators[0])
+                prev = self.filtered.get(a.targets[0].value.id)
+                if prev is not None:      # several stores: all of them must be filtered
+                    keys_ok, vals_ok = keys_ok and prev[1], vals_ok and prev[2]
+                self.filtered[a.targets[0].value.id] = (tbl, keys_ok, vals_ok)
+
     @staticmethod
     def _conjunct(cond, part) -> bool:
         if cond is part:
